@@ -140,6 +140,9 @@ class MinPathCoverCycles(walkmodel.AbstractWalkModelDiGraph):
     def solve(self) -> bool:
 
         self.solve_time_start = time.perf_counter()
+        # A previous successful solve() must not make this run look solved if it ends without a solution
+        self._is_solved = False
+        self._solution = None
         
         # Every constraint may need a path of its own, on top of the at most |E| paths explaining the edges
         for i in range(max(1, self.get_lowerbound_k()), self.G.number_of_edges() + len(self.subset_constraints) + 1):
